@@ -4,6 +4,7 @@ import (
 	"fmt"
 	"go/token"
 	"go/types"
+	"math/big"
 	"sort"
 
 	"golang.org/x/tools/go/ssa"
@@ -18,13 +19,14 @@ func (e *Engine) loopSpecFor(fr *Frame, li *loopInfo) *LoopSpec {
 
 type writeSet struct {
 	Cells   map[int]bool
+	Fresh   map[string]bool
 	Classes map[string]bool
 	Iters   map[int]bool
 	Ghosts  map[string]bool
 }
 
 func newWriteSet() *writeSet {
-	return &writeSet{Cells: map[int]bool{}, Classes: map[string]bool{}, Iters: map[int]bool{}, Ghosts: map[string]bool{}}
+	return &writeSet{Cells: map[int]bool{}, Fresh: map[string]bool{}, Classes: map[string]bool{}, Iters: map[int]bool{}, Ghosts: map[string]bool{}}
 }
 
 func (w *writeSet) absorb(d *Discovery) bool {
@@ -38,6 +40,12 @@ func (w *writeSet) absorb(d *Discovery) bool {
 	for k := range d.Classes {
 		if !w.Classes[k] {
 			w.Classes[k] = true
+			ch = true
+		}
+	}
+	for k := range d.FreshClasses {
+		if !w.Fresh[k] {
+			w.Fresh[k] = true
 			ch = true
 		}
 	}
@@ -77,7 +85,7 @@ func (e *Engine) loopEnter(st *State, li *loopInfo, b *ssa.BasicBlock, prev *ssa
 		}
 		s := st.clone()
 		outer := s.Disc
-		s.Disc = &Discovery{Depth: depth, Loop: li, Cells: map[int]bool{}, Classes: map[string]bool{}, Iters: map[int]bool{}, Ghosts: map[string]bool{}}
+		s.Disc = &Discovery{Depth: depth, Loop: li, Cells: map[int]bool{}, Classes: map[string]bool{}, FreshClasses: map[string]bool{}, FreshBases: map[int]*big.Int{}, Iters: map[int]bool{}, Ghosts: map[string]bool{}}
 		d := s.Disc
 		e.logOff++
 		func() {
@@ -94,7 +102,7 @@ func (e *Engine) loopEnter(st *State, li *loopInfo, b *ssa.BasicBlock, prev *ssa
 			}()
 			c2 := &LoopCtx{Spec: spec, Ord: li.Ord, Info: li, EntryHeap: snapshot(s.Heap), EntryAlloc: s.Alloc}
 			e.havocForLoop(s, W, c2, li)
-			d.Cells, d.Classes, d.Iters, d.Ghosts = map[int]bool{}, map[string]bool{}, map[int]bool{}, map[string]bool{}
+			d.Cells, d.Classes, d.FreshClasses, d.Iters, d.Ghosts = map[int]bool{}, map[string]bool{}, map[string]bool{}, map[int]bool{}, map[string]bool{}
 			e.assumeInvariants(s, li, c2, true)
 			s.top().Active[b] = c2
 			e.runInstrs(s, b, 0, prev, func(*State, Val) {})
@@ -122,7 +130,14 @@ func (e *Engine) loopEnter(st *State, li *loopInfo, b *ssa.BasicBlock, prev *ssa
 	// 3. havoc and assume
 	e.havocForLoop(st, W, ctx, li)
 	e.assumeInvariants(st, li, ctx, false)
-	ctx.Written = sortedKeys(W.Classes)
+	wall := map[string]bool{}
+	for k := range W.Classes {
+		wall[k] = true
+	}
+	for k := range W.Fresh {
+		wall[k] = true
+	}
+	ctx.Written = sortedKeys(wall)
 	fr.Active[b] = ctx
 	return false
 }
@@ -169,8 +184,28 @@ func (e *Engine) havocForLoop(st *State, W *writeSet, ctx *LoopCtx, li *loopInfo
 			locs = append(locs, e.evalLocsClause(sc, m)...)
 		}
 	}
-	for _, cl := range sortedKeys(W.Classes) {
+	all := map[string]bool{}
+	for k := range W.Classes {
+		all[k] = true
+	}
+	for k := range W.Fresh {
+		all[k] = true
+	}
+	for _, cl := range sortedKeys(all) {
 		s := e.classSorts[cl]
+		if !W.Classes[cl] && !hasMod {
+			// written only at objects allocated inside the body: objects existing at loop entry keep their contents
+			h := e.heapIn(ctx.EntryHeap, cl)
+			nh := tb.Fresh("lh_"+cl, s)
+			bv := tb.BoundVar("r", SInt)
+			e.assumeQuiet(st, tb.Forall([]*Term{bv}, tb.Implies(tb.Lt(bv, ctx.EntryAlloc), tb.Eq(tb.Select(nh, bv), tb.Select(h, bv))), []*Term{tb.Select(nh, bv)}))
+			st.Heap[cl] = nh
+			st.Written[cl] = true
+			if st.Disc != nil {
+				st.Disc.FreshClasses[cl] = true
+			}
+			continue
+		}
 		if hasMod {
 			// start again from the entry heap, then havoc only the listed locations of this class
 			var mine []Loc
@@ -227,6 +262,7 @@ func (e *Engine) havocForLoop(st *State, W *writeSet, ctx *LoopCtx, li *loopInfo
 		na := tb.Fresh("alloc", SInt)
 		e.assumeQuiet(st, tb.Ge(na, st.Alloc))
 		st.Alloc = na
+		st.noteAlloc()
 	}
 }
 
